@@ -102,6 +102,12 @@ def entry_points(ctx):
 def run(ctx):
     prog, sd, cg = ctx.prog, ctx.sd, ctx.cg
     S = sd.consts
+    r18 = ctx.rule('R18', 'the routing tables a cached spec hands out are '
+                   'not the ones it keeps: a caller that edits its copy '
+                   'does not change which joins later runs wake up (shared '
+                   'with C02.R3)', 'WMW (aliasing)')
+    from mstatic.rules import shared as _shf
+    _shf.handed_out_values_fresh(ctx, r18)
 
     # ---- R1 post-commit queue discipline --------------------------------
     r1 = ctx.rule('R1', 'register_operation is unreachable from any entry '
